@@ -231,6 +231,7 @@ def _digest(ctx, H, st, selected):
         ctx.violate("C19", "digest-raised", {"len": ln, "provider": selected["name"], "exc": type(e).__name__, "msg": str(e)[:200]})
         return
     ctx.obs("digest", ln, got["selected"].hex())
+    ctx.sig("%s|len%%64=%d|blocks%d" % (selected["name"], ln % 64, ln // 64))
     for k in ("selected", "bundled", "hashlib"):
         if k in got and got[k] != exp:
             ctx.violate("C19", "ripemd160-wrong-digest", {"replica": k, "provider": selected["name"], "len": ln})
